@@ -165,6 +165,22 @@ def run_live(ctx, queries, n):
         c.omode = None
         jobs.append((c, sched, 24, rng.choice([80, 100]), None))
 
+    # second-level groups that come and go between refreshes, on a fixed schedule with generous gaps (does not depend on
+    # the random bursts): hits per key 1,1 -> 3,1 -> 3,3, so the group `hits = 1` exists at two refreshes and is gone at the end
+    for i in range(2 if n < 100 else 8):
+        names = rng.sample(['a', 'b', 'c', 'dd', 'e'], 2)
+        stages = [('json', None), ('agg', [('hits', ('count', None))], [(None, col('k'))]), ('agg', [('users', ('count', None))], [(None, col('hits'))])] \
+                 + rng.choice([[], [('sort', [col('hits')], 'asc')]])
+        mk = lambda j, k: json.dumps({'id': j, 'k': k}).encode() + b'\n'
+        first = [mk(0, names[0]), mk(1, names[1])]
+        second = [mk(2, names[0]), mk(3, names[0])]
+        third = [mk(4, names[1]), mk(5, names[1])]
+        gap = rng.choice([0.3, 0.45])
+        sched = [(b''.join(first), gap), (b''.join(second), gap), (b''.join(third), 0.0)]
+        c = Case('g%d' % i, STAR, stages, [l.decode('utf8') for l in first + second + third])
+        c.omode = None
+        jobs.append((c, sched, 24, 80, None))
+
     def run(job):
         c, sched, h, w, cp = job
         return ptydrive.run_pty(c.query, sched, h, w, mode=c.omode, checkpoints=(cp,) if cp is not None else ())
